@@ -804,13 +804,13 @@ class electrical_signal():
         dtype = np.result_type(self.signal, other.signal)
 
         if self.noise is None and other.noise is None:
-            return self.__class__(-self.signal + other.signal, dtype=dtype)
+            return self.__class__(other.signal - self.signal, dtype=dtype)
         elif self.noise is None:
-            signal = -self.signal + other.signal
+            signal = other.signal - self.signal
             return self.__class__(signal, np.broadcast_to(other.noise, signal.shape), dtype=dtype)
         elif other.noise is None:
-            return self.__class__(-self.signal + other.signal, -self.noise, dtype=dtype)
-        return self.__class__(-self.signal + other.signal, -self.noise + other.noise, dtype=dtype)
+            return self.__class__(other.signal - self.signal, -self.noise.astype(dtype), dtype=dtype)
+        return self.__class__(other.signal - self.signal, other.noise - self.noise, dtype=dtype)
         
     def __mul__(self, other):
         """ Multiply two electrical signals (``*`` operator). Same that ``__rmul__``.
